@@ -1552,6 +1552,11 @@ def merge_typesystems(*typesystems: TypeSystem) -> TypeSystem:
                         # Existing supertype subsumes newly specified supertype;
                         # reset supertype to the new, more specific type: move the type to the children of its
                         # new supertype and let it (and its subtypes) inherit the additional features
+                        if merged_ts.subsumes(existing_type.name, t.supertype.name):
+                            msg = "Cannot merge type [{}]: its super type [{}] is declared as one of its subtypes".format(
+                                t.name, t.supertype.name
+                            )
+                            raise ValueError(msg)
                         new_supertype = merged_ts.get_type(t.supertype.name)
                         old_supertype = merged_ts.get_type(existing_type.supertype.name)
                         old_supertype._children.pop(existing_type.name, None)
